@@ -206,6 +206,79 @@ def scale_runs(ctx, runs, script="c06_impl"):
     return runs
 
 
+# ------------------------------------------------------------------ requirement recomputed from the shipped data
+
+REQ_COUNTRIES = ["WOR", "BOL", "PER", "IND", "MNG", "SAU", "EGY", "USA"]
+
+
+def data_requirements(code):
+    """{animal_type: (head, LSU, regional factor, monthly NE requirement)} read straight from the csv files of the
+    repository under test (csv module; no code of /repo involved): FAOSTAT head counts, species_attributes LSU,
+    the country's FAO region and that region's column of regional_conversion_factors (row = species name, exact)."""
+    import csv
+    import os
+    import lib
+    d = os.path.join(lib.REPO, "data", "no_food_trade", "animal_feed_data")
+    fao = "SWZ" if code == "SWT" else code
+    heads = next(r for r in csv.DictReader(open(os.path.join(d, "FAOSTAT_head_and_slaughter.csv"))) if r["iso3"] == fao)
+    attrs = {r["animal"]: r for r in csv.DictReader(open(os.path.join(d, "species_attributes.csv")))}
+    region = next((r["FAO-region-EK"] for r in csv.DictReader(open(os.path.join(d, "FAO_country_region_mappings.csv")))
+                   if r["alpha3"] == fao), "Other")
+    factors = {}
+    for r in csv.DictReader(open(os.path.join(d, "regional_conversion_factors.csv"))):
+        if r["animal"] in factors and factors[r["animal"]] != float(r[region]):
+            raise ValueError(f"regional table has two different rows for {r['animal']}")
+        factors[r["animal"]] = float(r[region])
+    one_lsu = ((29000 / 12) / 4.187) * 1000 / 1e9
+    out = {}
+    for col, v in heads.items():
+        if col.endswith("_head") and float(v) > 0:
+            t = col[:-len("_head")]
+            if t == "meat_cattle" and fao == "IND":
+                continue
+            species = t.replace("milk_", "").replace("meat_", "")
+            lsu = float(attrs[t]["LSU"])
+            out[t] = (float(v), lsu, factors[species], lsu * one_lsu * factors[species] * float(v), region)
+    return out
+
+
+def requirement_audit(ctx):
+    """the energy requirement the herd objects use at month 0 of main() = head x LSU x one_LSU x regional factor of the data"""
+    runs = [{"code": c, "scenario": "baseline", "feed": [0.0], "grass": [0.0], "kdict": KD0, "months": [0], "shape": "requirement"}
+            for c in REQ_COUNTRIES]
+    res = ctx.run_impl("c07_audit", {"runs": runs})["results"]
+    seen, n = set(), 0
+    for rn, r in zip(runs, res):
+        rep = {"kind": "counterexample", "requirement_audit": rn["code"]}
+        if "error" in r:
+            ctx.violation("C07:requirement-differs-from-data@set_LSU_attributes:main-raised", f"main() raised {r['error']} for {rn['code']}", rep)
+            continue
+        want = data_requirements(rn["code"])
+        got = {r["statics"][c["i"]]["type"]: (c, r["statics"][c["i"]]) for c in r["months"]["0"]["calls"]}
+        if set(want) != set(got):
+            ctx.violation("C07:requirement-differs-from-data@create_animal_objects:herds",
+                          f"{rn['code']}: herds simulated {sorted(got)} but the data has {sorted(want)}", rep)
+        for t in sorted(set(want) & set(got)):
+            head, lsu, fac, req, region = want[t]
+            c, st = got[t]
+            n += 1
+            seen.add(t)
+            ctx.count(("requirement", rn["code"], t), nontrivial=True)
+            if not abs(c["req"] - req) <= 1e-9 * abs(req) or not abs(c["cur"] - head) <= 1e-9 * head:
+                ctx.violation(f"C07:requirement-differs-from-data@set_LSU_attributes:{t}",
+                              f"{rn['code']} ({region}) {t}: the herd object requires {c['req']!r} billion kcal/month for {c['cur']!r} head "
+                              f"(LSU {st['livestock_unit']!r}, factor {st['LSU_factor']!r}) but the data files give {req!r} for {head!r} head "
+                              f"(LSU {lsu!r}, regional factor {fac!r})", dict(rep, species=t))
+    missing = sorted(set(TYPES) - seen)
+    ctx.notes["requirement_audit"] = {
+        "countries": REQ_COUNTRIES, "herds_compared": n, "species_names_covered": sorted(seen), "species_names_not_covered": missing,
+        "note": "the theorems and the model take each herd's requirement (LSU x one_LSU x factor x head) as given (feeder_ok only asks "
+                "requirement >= 0); that the requirement the objects use is the one of the shipped attribute / regional tables is "
+                "checked by this audit only, for the listed countries"}
+    if missing:
+        ctx.violation("C07:requirement-audit-coverage", f"species names not covered by the fixed countries: {missing}", {"kind": "counterexample"})
+
+
 # ------------------------------------------------------------------ direct audit of one observed call
 
 def audit_call(c, out, eg, ef, dig_rum, what):
@@ -271,6 +344,7 @@ def run(ctx):
         ctx.tie_ok = False
         ctx.broken.append(f"model does not compile: {bad}")
         return
+    requirement_audit(ctx)
     rng = ctx.rng
     q = ctx.quick
     sp_cases = [gen_species_case(rng) for _ in range(1500 if q else 30000)]
@@ -481,6 +555,10 @@ def replay(rep):
         ks = [r["keys"][i] for i in r["order"]] if "err" not in r else []
         if "err" in r or any(ks[i] < ks[i + 1] for i in range(len(ks) - 1)):
             failed.append(("order", str(r)))
+    elif rep.get("requirement_audit"):
+        before = len(ctx.violations)
+        requirement_audit(ctx)
+        failed += [(v["key"], v["what"]) for v in ctx.violations[before:]]
     elif rep.get("run") or ("case" in rep and "code" in rep["case"]):
         rn = dict(rep.get("run") or rep["case"])
         rn.setdefault("months", [])
